@@ -201,7 +201,13 @@ pub fn sec1_private(der: &[u8]) -> Option<(Vec<u8>, Option<Vec<u8>>)> {
     while !r.is_empty() {
         let (t, c, rr) = read_tlv(r)?;
         match t {
-            0xa0 => {}
+            0xa0 => {
+                // ECParameters: namedCurve OID only
+                let (to, _oid, ro) = read_tlv(c)?;
+                if to != 6 || !ro.is_empty() {
+                    return None;
+                }
+            }
             0xa1 => {
                 let (tb, bits, rb) = read_tlv(c)?;
                 if tb != 3 || !rb.is_empty() || bits.is_empty() || bits[0] != 0 {
